@@ -118,7 +118,7 @@ func runC03(c *Ctx) {
 	c03R2(c, setDesc)
 
 	// ---- R3
-	c03R3(c, setDesc)
+	whoMayWriteNegotiationState(c, "C03.R3", setDesc)
 }
 
 // errVarAssignedBy finds the variable that receives the error result of the call to fn in node n.
@@ -404,7 +404,7 @@ func armOf(g *core.Graph, n int, _ *types.Func) string {
 	return strings.Join(parts, "/")
 }
 
-func c03R3(c *Ctx, setDesc *core.FuncInfo) {
+func whoMayWriteNegotiationState(c *Ctx, rule string, setDesc *core.FuncInfo) {
 	r := c.R
 	descFields := map[*types.Var]string{}
 	for _, f := range []string{"pendingLocalDescription", "pendingRemoteDescription", "currentLocalDescription", "currentRemoteDescription"} {
@@ -412,11 +412,11 @@ func c03R3(c *Ctx, setDesc *core.FuncInfo) {
 			descFields[v] = f
 		}
 	}
-	sigField := c.mustField("C03.R3", "", "PeerConnection", "signalingState")
+	sigField := c.mustField(rule, "", "PeerConnection", "signalingState")
 	setFn := c.P.Func("", "SignalingState.Set")
 	onChange := c.P.Func("", "PeerConnection.onSignalingStateChange")
-	closeFn := c.mustFunc("C03.R3", "", "PeerConnection.close")
-	closedConst := c.mustConst("C03.R3", "", "SignalingStateClosed")
+	closeFn := c.mustFunc(rule, "", "PeerConnection.close")
+	closedConst := c.mustConst(rule, "", "SignalingStateClosed")
 	if setFn == nil || onChange == nil || closeFn == nil || closedConst == nil || sigField == nil {
 		return
 	}
@@ -431,13 +431,13 @@ func c03R3(c *Ctx, setDesc *core.FuncInfo) {
 				for _, lhs := range s.Lhs {
 					if name, ok := descFields[core.FieldOf(info, lhs)]; ok {
 						key := sprintf("write:%s|in:%s", name, fi.Name())
-						r.Check(fi == setDesc, "C03.R3", key, c.P.Pos(lhs.Pos()), "inside setDescription", "description field written outside setDescription: the commit is no longer confined to the guarded transition")
+						r.Check(fi == setDesc, rule, key, c.P.Pos(lhs.Pos()), "inside setDescription", "description field written outside setDescription: the commit is no longer confined to the guarded transition")
 					}
 				}
 			case *ast.UnaryExpr:
 				// &pc.pendingLocalDescription etc. would allow writes elsewhere
 				if name, ok := descFields[core.FieldOf(info, s.X)]; ok && s.Op.String() == "&" {
-					r.Fail("C03.R3", sprintf("addr:%s|in:%s", name, fi.Name()), c.P.Pos(s.Pos()), "address of a description field taken")
+					r.Fail(rule, sprintf("addr:%s|in:%s", name, fi.Name()), c.P.Pos(s.Pos()), "address of a description field taken")
 				}
 			case *ast.CallExpr:
 				switch {
@@ -450,17 +450,17 @@ func c03R3(c *Ctx, setDesc *core.FuncInfo) {
 					key := "call:signalingState.Set|in:" + fi.Name()
 					switch {
 					case fi == setDesc:
-						r.OK("C03.R3", key, c.P.Pos(s.Pos()), "inside setDescription (guard checked by R2)")
+						r.OK(rule, key, c.P.Pos(s.Pos()), "inside setDescription (guard checked by R2)")
 					case fi == closeFn:
 						tv := info.Types[s.Args[0]]
 						okc := tv.Value != nil && tv.Value.String() == closedConst.Val().String() && types.Identical(tv.Type, closedConst.Type())
-						r.Check(okc, "C03.R3", key, c.P.Pos(s.Pos()), "close() sets the constant Closed", "close() sets a state other than the constant Closed")
+						r.Check(okc, rule, key, c.P.Pos(s.Pos()), "close() sets the constant Closed", "close() sets a state other than the constant Closed")
 					default:
-						r.Fail("C03.R3", key, c.P.Pos(s.Pos()), "signaling state set outside setDescription/close")
+						r.Fail(rule, key, c.P.Pos(s.Pos()), "signaling state set outside setDescription/close")
 					}
 				case core.IsCallTo(info, s, onChange.Obj):
 					key := "call:onSignalingStateChange|in:" + fi.Name()
-					r.Check(fi == setDesc, "C03.R3", key, c.P.Pos(s.Pos()), "inside setDescription (guard checked by R2)", "signaling-state-change event emitted outside setDescription's success arm")
+					r.Check(fi == setDesc, rule, key, c.P.Pos(s.Pos()), "inside setDescription (guard checked by R2)", "signaling-state-change event emitted outside setDescription's success arm")
 				}
 			}
 			return true
